@@ -111,7 +111,17 @@ impl Check for C02 {
                 let st = sink.store.clone();
                 match guard(|| lib.write(sink)) {
                     Err(p) => out.violation = Some(panic_violation("GdsLibrary::write(writeback)", &p, json!({"library": lib_artefact(&lib)}))),
-                    Ok(Err(_)) => out.probes.hit("write_flush_interrupted_err_reported"),
+                    Ok(Err(_)) => {
+                        out.probes.hit("write_flush_interrupted_err_reported");
+                        // history: the write after a failed one must still be the same well-formed stream
+                        let sink = SimSink::new(&io, Policy::plain());
+                        let st2 = sink.store.clone();
+                        if let Ok(Ok(())) = guard(|| lib.write(sink)) {
+                            if *st2.borrow() != bytes0 {
+                                out.violation = Some(Violation { class: "not-conserved".into(), sig: "write/retry-after-failure/bytes".into(), detail: format!("the write following a failed write on the same thread produced {} bytes instead of the {}-byte stream", st2.borrow().len(), bytes0.len()), artefact: art(&lib, &bytes0) });
+                            }
+                        }
+                    }
                     Ok(Ok(())) => {
                         if *st.borrow() != bytes0 {
                             out.violation = Some(Violation { class: "not-conserved".into(), sig: "write/writeback/bytes".into(), detail: format!("write reported success but the sink holds {} of {} bytes after {} interrupted flush call(s): the stream does not end with ENDLIB", st.borrow().len(), bytes0.len(), pol.flush_eintr), artefact: art(&lib, &bytes0) });
